@@ -109,13 +109,21 @@ func c17(args []string) {
 		s := streamSpecAt(fmt.Sprintf("st%d", i), j.n, j.max, j.mixed, prefix)
 		if j.aux {
 			cons := s.Proc("CONS")
-			cons.Cmd = spec.BuildCmd("CONS", []spec.PortDecl{{Name: "in"}, {Name: "aux"}}, []spec.PortDecl{{Name: "out"}}, nil, nil, nil)
+			// both declaration orders: Go visits the entries of a small map mostly in insertion order (7 times in 8)
+			ports := []spec.PortDecl{{Name: "aux"}, {Name: "in"}}
+			if i%3 == 2 {
+				ports = []spec.PortDecl{{Name: "in"}, {Name: "aux"}}
+			}
+			cons.Cmd = spec.BuildCmd("CONS", ports, []spec.PortDecl{{Name: "out"}}, nil, nil, nil)
 			s.Conns = append(s.Conns, &spec.Conn{From: "src.out", To: "CONS.aux"})
 		}
 		bh := vproto.Behaviours{"PROD": {"size": fmt.Sprint(j.size)}}
 		switch j.order {
 		case "producer-last":
 			bh["PROD"]["post"] = "150"
+			if j.aux {
+				bh["PROD"]["post"] = "700" // the producer must still be running when the consumer is long done, also on a loaded machine
+			}
 		case "consumer-last":
 			bh["CONS"] = map[string]string{"post": "150"}
 		}
